@@ -672,6 +672,22 @@ func cloneFresh(c *core.Ctx, e *eff.Engine, f *eff.Func) (string, token.Pos) {
 				}
 			}
 		}
+		if ts, ok := n.(*ast.TypeSwitchStmt); ok {
+			// switch x := e.(type): the per-clause variable is e itself
+			if as, ok := ts.Assign.(*ast.AssignStmt); ok && len(as.Rhs) == 1 {
+				if ta, ok := ast.Unparen(as.Rhs[0]).(*ast.TypeAssertExpr); ok {
+					for _, cl := range ts.Body.List {
+						if o := info.Implicits[cl]; o != nil {
+							// the immutable SparseConst* vectors have no mutators: returning the operand itself is unobservable
+							if strings.Contains(eff.TypeName(o.Type()), "SparseConst") {
+								continue
+							}
+							localDefs[o] = append(localDefs[o], ta.X)
+						}
+					}
+				}
+			}
+		}
 		if rg, ok := n.(*ast.RangeStmt); ok {
 			// the element variable is as fresh as the container it is taken from
 			if id, ok := rg.Value.(*ast.Ident); ok && id.Name != "_" {
@@ -847,6 +863,72 @@ func cloneFresh(c *core.Ctx, e *eff.Engine, f *eff.Func) (string, token.Pos) {
 		for _, r := range rs.Results {
 			if ok, why := isFresh(r, 0); !ok {
 				shared, sharedPos = "returns "+why, r.Pos()
+			}
+		}
+		return true
+	})
+	if shared != "" {
+		return shared, sharedPos
+	}
+	// 1b. stores into the storage of a returned local (r.values[i] = s): the stored reference must be fresh too
+	results := map[types.Object]bool{}
+	ast.Inspect(f.Body, func(n ast.Node) bool {
+		if _, ok := n.(*ast.FuncLit); ok {
+			return false
+		}
+		if rs, ok := n.(*ast.ReturnStmt); ok {
+			for _, r := range rs.Results {
+				x := ast.Unparen(r)
+				if u, ok := x.(*ast.UnaryExpr); ok && u.Op == token.AND {
+					x = ast.Unparen(u.X)
+				}
+				if id, ok := x.(*ast.Ident); ok {
+					if o := info.Uses[id]; o != nil && !srcs[o] {
+						results[o] = true
+					}
+				}
+			}
+		}
+		return true
+	})
+	ast.Inspect(f.Body, func(n ast.Node) bool {
+		as, ok := n.(*ast.AssignStmt)
+		if !ok || shared != "" || len(as.Lhs) != len(as.Rhs) {
+			return true
+		}
+		for i, l := range as.Lhs {
+			if _, isId := ast.Unparen(l).(*ast.Ident); isId {
+				continue
+			}
+			// root of the target
+			root := ast.Unparen(l)
+			for {
+				switch x := root.(type) {
+				case *ast.SelectorExpr:
+					root = ast.Unparen(x.X)
+					continue
+				case *ast.IndexExpr:
+					root = ast.Unparen(x.X)
+					continue
+				case *ast.StarExpr:
+					root = ast.Unparen(x.X)
+					continue
+				}
+				break
+			}
+			rid, ok := root.(*ast.Ident)
+			if !ok || !results[info.Uses[rid]] {
+				continue
+			}
+			tv, ok := info.Types[as.Rhs[i]]
+			if !ok || !refKindType(tv.Type) {
+				continue
+			}
+			if _, isIdx := ast.Unparen(l).(*ast.IndexExpr); !isIdx {
+				continue // field stores are decided by the field rule below
+			}
+			if ok, why := isFresh(as.Rhs[i], 0); !ok {
+				shared, sharedPos = "stores "+why+" into the result ("+types.ExprString(l)+")", as.Pos()
 			}
 		}
 		return true
